@@ -222,7 +222,7 @@ func structHasField(p *Program, sn, fld string) bool {
 		return false
 	}
 	for i := 0; i < st.NumFields(); i++ {
-		if st.Field(i).Name() == fld {
+		if canonFieldName(sn, st, i) == fld {
 			return true
 		}
 	}
